@@ -162,6 +162,7 @@ def get_oracle(h, k, spec, res, E):
         pieces = [direct(r, idx) for r in recs]
     except (IndexError, TypeError):
         return None                                    # out of range: the text is silent
+    pieces = [p.tolist() if isinstance(p, np.ndarray) else p for p in pieces]
     if all(isinstance(p, (list, tuple)) for p in pieces):
         if any(isinstance(q, (list, tuple)) for p in pieces for q in p):
             nrows = len(pieces[0])
